@@ -208,19 +208,31 @@ def bath_dynamics_job(job):
 
     def alpha(t):          # displacement of the mode: g O int_0^t exp(-i w (t - s)) ds, O = 1/2
         return -1j * np.sqrt(jw) * 0.5 * (1 - np.exp(-1j * w * t)) / (1j * w)
+    nth = 0.0 if temp == 0 else 1.0 / (np.exp(w / temp) - 1.0)
     out = []
     for req in order:
         if req == "occ":
-            t, occ = b.occupation(w, change_only=True, progress_type="silent")
-            ref = jw * 0.25 * 2 * (1 - np.cos(w * t)) / w ** 2
-            if np.max(np.abs(occ - ref)) > 1e-7:
-                out.append({"what": "occupation", "err": float(np.max(np.abs(occ - ref)))})
+            for change_only in (True, False):
+                t, occ = b.occupation(w, change_only=change_only, progress_type="silent")
+                ref = jw * 0.25 * 2 * (1 - np.cos(w * t)) / w ** 2 + (0.0 if change_only else nth)
+                if np.max(np.abs(occ - ref)) > 1e-7:
+                    out.append({"what": "occupation", "change_only": change_only, "err": float(np.max(np.abs(occ - ref)))})
         else:
             t1, t2 = req
-            c = b.correlation(w, t1, time_2=t2, change_only=True, progress_type="silent")
-            ref = np.conj(alpha(t2)) * alpha(t1)
-            if abs(c - ref) > 1e-7:
-                out.append({"what": "bath-correlation", "times": [t1, t2], "err": float(abs(c - ref))})
+            # a(t) = a exp(-i w t) + alpha(t): every ordering of daggers has a closed form; the free part contributes
+            # n(w) exp(+i w (t2 - t1)) to <a+ a> and (n(w) + 1) exp(-i w (t2 - t1)) to <a a+>
+            a1, a2 = alpha(t1), alpha(t2)
+            refs = {(1, 0): (np.conj(a2) * a1, nth * np.exp(1j * w * (t2 - t1))),
+                    (0, 1): (a2 * np.conj(a1), (nth + 1) * np.exp(-1j * w * (t2 - t1))),
+                    (1, 1): (np.conj(a2) * np.conj(a1), 0.0),
+                    (0, 0): (a2 * a1, 0.0)}
+            for dagg, (disp, free) in refs.items():
+                for change_only in (True, False):
+                    c = b.correlation(w, t1, time_2=t2, dagg=dagg, change_only=change_only, progress_type="silent")
+                    ref = disp + (0.0 if change_only else free)
+                    if abs(c - ref) > 1e-7:
+                        out.append({"what": "bath-correlation", "times": [t1, t2], "dagg": list(dagg),
+                                    "change_only": change_only, "err": float(abs(c - ref))})
     return out
 
 
